@@ -36,6 +36,7 @@ func checkC17(p *Program, r *Report) {
 	r.Explain("C17: exhaustive structural decision over the node model (E0) and the walker's SSA. " +
 		"R1: every node kind the parser can place in a child position (flow analysis of the grammar actions, keyed by grammar symbol recovered from the LALR tables) has a clause in the walk function that position is given to. " +
 		"R2: in the clause of kind T every child field of T is passed to a walk function on every path that does not return a callback error (forward must-analysis; element-wise loops are accepted when the visit dominates the loop latches and indexes with the loop's induction variable). " +
+		"R6: every child field the grammar actions can leave nil (left out of a node literal, given as nil, or fed from a symbol that is nil for an empty block) is walked nil-safely: the walk function answers nil for a nil node before it looks at it, or the call stands under a non-nil test of the field. " +
 		"R3: the callback call on the node dominates all child walks; every result of a walk or callback call is returned directly or tested non-nil with the true edge returning that very value.")
 	r.Assume("the callback is only reached through the walk functions of package astutil (closed world: unexported helpers)")
 	r.Exhaustive = true
@@ -321,6 +322,7 @@ func checkC17(p *Program, r *Report) {
 			}
 		}
 	}
+	c17NilChildren(p, r, g, m, walkers, sw)
 	r.Note("walkers", len(order))
 	r.Note("clauses", nClauses)
 	r.Note("child_fields_checked", nFields)
@@ -867,9 +869,21 @@ func analyseClause(m *NodeModel, w *walker, kind string, ta *ssa.TypeAssert, wal
 				}
 			}
 		}
-		for _, s := range b.Succs {
+		for si, s := range b.Succs {
 			if errEdge[b] == s {
 				continue
+			}
+			state := state
+			// on the nil side of a test of a child field there is nothing of that field to walk
+			if iff, ok := b.Instrs[len(b.Instrs)-1].(*ssa.If); ok && nv != nil && len(b.Succs) == 2 && b.Succs[0] != b.Succs[1] {
+				if bo, ok := iff.Cond.(*ssa.BinOp); ok && isNilConst(bo.Y) {
+					if x, f, ok := fieldLoad(bo.X); ok && x == nv {
+						if name, ok := fieldIdx[f]; ok && ((bo.Op == token.EQL && si == 0) || (bo.Op == token.NEQ && si == 1)) {
+							state = clone(state)
+							state[name] = true
+						}
+					}
+				}
 			}
 			old, seen := in[s]
 			if !seen {
